@@ -222,6 +222,30 @@ func checkC01(c c01Case) *evid.Fail {
 			}
 		}
 	}
+	// the same calculator is then given the expression with the letter case of its string literals flipped:
+	// keywords and identifiers are case-insensitive, the contents of literals are not
+	if flipped, changed := flipLiteralCase(c.Tree); changed && wantPanic == nil {
+		text := spellPlain(printTokens(flipped, parensMinimal, nil))
+		calc := calculator.NewExpressionCalculator()
+		calc.SetVariantOperations(ops)
+		var gotV, fV *variants.Variant
+		var gotErr, fErr error
+		if g := guard(func() {
+			if gotErr = calc.SetExpression(c.Texts[0]); gotErr == nil {
+				calc.EvaluateUsingVariablesAndFunctions(makeVars(c.Vars), funcs)
+				if gotErr = calc.SetExpression(text); gotErr == nil {
+					gotV, gotErr = calc.EvaluateUsingVariablesAndFunctions(makeVars(c.Vars), funcs)
+				}
+			}
+			fV, fErr = evalTree(flipped, makeVars(c.Vars), funcs, ops)
+		}); g == nil && (gotErr == nil) == (fErr == nil) && gotErr == nil && gotV != nil && fV != nil {
+			if !equalVal(fromVariant(gotV), fromVariant(fV)) {
+				return evid.F("value-mismatch:after-case-variant", "a calculator that first compiled %q and then %q returns %s for the latter, its syntax tree evaluates to %s", c.Texts[0], text, fromVariant(gotV), fromVariant(fV))
+			}
+		} else if g == nil && (gotErr == nil) != (fErr == nil) {
+			return evid.F("value-mismatch:after-case-variant", "a calculator that first compiled %q and then %q: error=%v, tree evaluation error=%v", c.Texts[0], text, gotErr, fErr)
+		}
+	}
 	for i := 1; i < len(results); i++ {
 		if results[i] != results[0] && !strings.HasPrefix(results[i], "error") && !strings.HasPrefix(results[0], "error") {
 			return evid.F("printings-disagree", "%q = %s but %q = %s", c.Texts[0], results[0], c.Texts[i], results[i])
@@ -400,4 +424,33 @@ func TestC01_Exhaustive(t *testing.T) {
 			}
 		}
 	})
+}
+
+// flipLiteralCase copies the tree with the ASCII letter case of every string literal flipped.
+func flipLiteralCase(n *node) (*node, bool) {
+	cp := *n
+	changed := false
+	if n.Op == "const" && strings.HasPrefix(n.Tok, "'") {
+		var sb strings.Builder
+		for _, r := range n.Tok {
+			switch {
+			case r >= 'a' && r <= 'z':
+				sb.WriteRune(r - 32)
+				changed = true
+			case r >= 'A' && r <= 'Z':
+				sb.WriteRune(r + 32)
+				changed = true
+			default:
+				sb.WriteRune(r)
+			}
+		}
+		cp.Tok = sb.String()
+	}
+	cp.Kids = nil
+	for _, k := range n.Kids {
+		kc, ch := flipLiteralCase(k)
+		cp.Kids = append(cp.Kids, kc)
+		changed = changed || ch
+	}
+	return &cp, changed
 }
